@@ -242,6 +242,55 @@ theorem source_genUintRange_in_range (fe : Go.FEval) (ft : FT) (H : FloatFacts f
       (fun x => min ≤ x.1 ∧ x.1 ≤ max) :=
   Yields.of_runEq (fun k => tr_genUintRange fe ft H min max bias fuel _ _ (fun _ _ _ => RunEq.refl _)) (uintRange_mem ft min max bias fuel h)
 
+/-- **`integerGen.value` of integers.go (every integer generator: `Int`, `Uint8Range`, `Int32Min` …), translated on every run**: a
+    signed kind draws `genIntRange(smin, smax)`, an unsigned one `genUintRange(umin, umax)`, both with bias, and the value is
+    converted to the kind — the `.int` / `.uint` cases of the model's `Gen.body` -/
+theorem source_integerGen_value_signed (fe : Go.FEval) (ft : FT) (H : FloatFacts fe ft) {I : Type} [Go.Enc I] [Inhabited I]
+    (smin smax : Int64) (umax umin : UInt64) (ci : Int64 → I) (cu : UInt64 → I) (fuel : Nat) (k : I → Prog) (src : Src) (ts : TS) :
+    (Translated.integerGen_value fe true smin smax umax umin ci cu fuel k).run src ts =
+      (intRange ft smin smax fuel fun i _ _ => k (ci i)).run src ts := by
+  simp only [Translated.integerGen_value, if_true]
+  exact tr_genIntRange fe ft H smin smax fuel _ _ (fun _ _ _ => RunEq.refl _) src ts
+
+theorem source_integerGen_value_unsigned (fe : Go.FEval) (ft : FT) (H : FloatFacts fe ft) {I : Type} [Go.Enc I] [Inhabited I]
+    (smin smax : Int64) (umax umin : UInt64) (ci : Int64 → I) (cu : UInt64 → I) (fuel : Nat) (k : I → Prog) (src : Src) (ts : TS) :
+    (Translated.integerGen_value fe false smin smax umax umin ci cu fuel k).run src ts =
+      (uintRange ft umin umax true fuel fun u _ _ => k (cu u)).run src ts := by
+  simp only [Translated.integerGen_value, Bool.false_eq_true, if_false]
+  exact tr_genUintRange fe ft H umin umax true fuel _ _ (fun _ _ _ => RunEq.refl _) src ts
+
+/-- … so every value an integer generator of the source hands on lies between the bounds of the generator (before the
+    conversion to the kind, which is the identity on values of the kind) -/
+theorem source_integerGen_in_range (fe : Go.FEval) (ft : FT) (H : FloatFacts fe ft) (smin smax : Int64) (umax umin : UInt64) (fuel : Nat)
+    (hs : smin ≤ smax) (hu : umin ≤ umax) :
+    Yields (fun (k : Int64 → Prog) => Translated.integerGen_value fe true smin smax umax umin id (fun u => u.toInt64) fuel k)
+        (fun x => smin ≤ x ∧ x ≤ smax) ∧
+    Yields (fun (k : UInt64 → Prog) => Translated.integerGen_value fe false smin smax umax umin (fun i => i.toUInt64) id fuel k)
+        (fun x => umin ≤ x ∧ x ≤ umax) := by
+  constructor
+  · have h := source_genIntRange_in_range fe ft H smin smax fuel hs
+    intro k src ts
+    have e : Translated.integerGen_value fe true smin smax umax umin id (fun u => u.toInt64) fuel k =
+        Translated.genIntRange fe smin smax true fuel (fun i l r => (fun (x : Int64 × Bool × Bool) => k x.1) (i, l, r)) := by
+      simp [Translated.integerGen_value]
+    show (∃ a, _) ∨ _
+    simp only []
+    rw [e]
+    rcases h (fun x => k x.1) src ts with ⟨a, hP, hrest⟩ | herr
+    · exact Or.inl ⟨a.1, hP, hrest⟩
+    · exact Or.inr herr
+  · have h := source_genUintRange_in_range fe ft H umin umax true fuel hu
+    intro k src ts
+    have e : Translated.integerGen_value fe false smin smax umax umin (fun i => i.toUInt64) id fuel k =
+        Translated.genUintRange fe umin umax true fuel (fun u l r => (fun (x : UInt64 × Bool × Bool) => k x.1) (u, l, r)) := by
+      simp [Translated.integerGen_value]
+    show (∃ a, _) ∨ _
+    simp only []
+    rw [e]
+    rcases h (fun x => k x.1) src ts with ⟨a, hP, hrest⟩ | herr
+    · exact Or.inl ⟨a.1, hP, hrest⟩
+    · exact Or.inr herr
+
 /-- **floats.go, translated on every run**: `genFloatRange` (sign coin, the two calls of `genUfloatRange` with
     their groups, both `switch` blocks, the rejection-free draw of `r`, the bit-clearing loop) for float64 runs
     in lock-step with the model and hands on the same sign, exponent and significand parts -/
